@@ -1,6 +1,6 @@
 """C15 - cw3-flex: deposits are taken once and returned at most once, as promised."""
 from ..engine import show
-from ..idioms import dispatch, entry_points, update_base, loaded_from, field_of, walk, response_entries
+from ..idioms import dispatch, entry_points, update_base, loaded_from, field_of, walk, response_entries, possible_variants
 from .cw3common import SENDER, BLOCK, CS, AUTHORIZE, STATUS, status, items, cs_call, exec_paths
 from .C05 import is_refund
 
@@ -40,10 +40,12 @@ def run(ctx):
     for p in groups.get("Close", []):
         if p.is_err():
             continue
-        for c in p.conds:
-            t = c[0]
-            if t[0] == "call" and t[1].endswith("contains") and c[1] is False and t[2][0][0] == "list" and status("Rejected") in t[2][0][1]:
-                close_refuses_rejected = True
+        for i, e in enumerate(p.effects):
+            if e.kind == "write" and e.item == PROP and e.op != "remove":
+                base, _ = update_base(e.value)
+                pv = possible_variants(ctx, p, ("field", base, "status"), STATUS, before=i)
+                if pv is not None and "Rejected" not in pv:
+                    close_refuses_rejected = True
     for variant, ps in sorted(groups.items(), key=lambda x: str(x[0])):
         key = "execute/%s" % variant
         for p in ps:
